@@ -1,6 +1,7 @@
 package props
 
 import (
+	"github.com/freeconf/yang/meta"
 	"encoding/json"
 	"fmt"
 	"strings"
@@ -15,6 +16,45 @@ import (
 )
 
 func init() { Registry["C09"] = C09 }
+
+func c09hook(n *nodeutil.Node, r node.ChildRequest) (node.Node, error) {
+	m, isMap := n.Object.(map[string]interface{})
+	if !isMap || !meta.IsContainer(r.Meta) || meta.IsList(r.Meta) {
+		return n.DoChild(r)
+	}
+	key := "x-" + r.Meta.Ident()
+	if r.Delete {
+		delete(m, key)
+		return nil, nil
+	}
+	if r.New {
+		m[key] = map[string]interface{}{}
+	}
+	child, found := m[key]
+	if !found {
+		return nil, nil
+	}
+	return n.New(r.Meta, child)
+}
+
+// the hooked store with its containers back under their schema names
+func c09unhook(v interface{}) interface{} {
+	switch x := v.(type) {
+	case map[string]interface{}:
+		out := map[string]interface{}{}
+		for k, e := range x {
+			out[strings.TrimPrefix(k, "x-")] = c09unhook(e)
+		}
+		return out
+	case []interface{}:
+		out := make([]interface{}, len(x))
+		for i, e := range x {
+			out[i] = c09unhook(e)
+		}
+		return out
+	}
+	return v
+}
 
 // Go-side invariant check, independent of the model
 func oneCaseGo(kids []*gen.SNode, body []*gen.DNode) bool {
@@ -97,6 +137,25 @@ func C09(c *core.Ctx) {
 			rootKids = []*gen.SNode{{Name: "ll", Kind: "list", NKeys: 1, Kids: entryKids}}
 		}
 		y := gen.Module("m", rootKids)
+		if si%20 == 0 {
+			// shorthand cases that an augment adds to a choice: each node is a case of its own (RFC 7950 §7.9.2)
+			lf := func(n string) *gen.SNode { return &gen.SNode{Name: n, Kind: "leaf", Type: "string"} }
+			ch := &gen.SNode{Name: "ch", Kind: "choice", Cases: []*gen.SCase{
+				{Name: "ca", Kids: []*gen.SNode{lf("a1"), lf("a2")}},
+				{Name: "y1", Kids: []*gen.SNode{lf("y1")}, Shorthand: true},
+				{Name: "y2", Kids: []*gen.SNode{{Name: "y2", Kind: "cont", Kids: []*gen.SNode{lf("x2")}}}, Shorthand: true},
+				{Name: "y3", Kids: []*gen.SNode{lf("y3")}, Shorthand: true},
+				{Name: "z4", Kids: []*gen.SNode{lf("z4"), {Name: "z5", Kind: "cont", Kids: []*gen.SNode{lf("x5")}}}}}}
+			kids = []*gen.SNode{lf("other"), {Name: "top", Kind: "cont", Kids: []*gen.SNode{lf("p"), ch, lf("q")}}}
+			inList, rootKids, entryKids = false, kids, kids
+			y = `module m { namespace "urn:m"; prefix m; revision 2020-01-01;
+  leaf other { type string; }
+  container top { leaf p { type string; } choice ch { case ca { leaf a1 { type string; } leaf a2 { type string; } } } leaf q { type string; } }
+  augment "/top/ch" { leaf y1 { type string; } container y2 { leaf x2 { type string; } } leaf y3 { type string; } }
+  augment "/top/ch" { case z4 { leaf z4 { type string; } container z5 { leaf x5 { type string; } } } }
+}
+`
+		}
 		m, err := parser.LoadModuleFromString(nil, y)
 		if err != nil {
 			c.Violation(core.Replay{Kind: "harness", Summary: "generated choice module does not load: " + err.Error(), Input: y, NoInputFound: true})
@@ -105,7 +164,7 @@ func C09(c *core.Ctx) {
 		hasNested := strings.Count(y, "choice") >= 2
 		for hi := 0; hi < perSchema; hi++ {
 			r := rng.Fork()
-			tgtKind := core.Pick(r, []string{"refstore", "refstore", "reflect-map", "node-map"})
+			tgtKind := core.Pick(r, []string{"refstore", "refstore", "reflect-map", "node-map", "node-map-hooked"})
 			// the target starts empty (or with the single list entry)
 			tree := gen.EmptyBody(rootKids)
 			if inList {
@@ -125,6 +184,10 @@ func C09(c *core.Ctx) {
 			case "node-map":
 				tgtMap = gen.ToMap(rootKids, tree)
 				root = &nodeutil.Node{Object: tgtMap}
+			case "node-map-hooked":
+				// an application that serves its containers through the OnChild hook (here: kept under another key)
+				tgtMap = gen.ToMap(rootKids, tree)
+				root = &nodeutil.Node{Object: tgtMap, OnChild: c09hook}
 			}
 			b := node.NewBrowser(m, root)
 			modelTgt := gen.EmptyBody(entryKids)
@@ -174,6 +237,8 @@ func C09(c *core.Ctx) {
 				un := false
 				if tgtKind == "refstore" {
 					after = tree
+				} else if tgtKind == "node-map-hooked" {
+					after = gen.FromMap(rootKids, c09unhook(tgtMap), &un)
 				} else {
 					after = gen.FromMap(rootKids, tgtMap, &un)
 				}
